@@ -359,6 +359,8 @@ structure Cfg where
   showClose : List Nat
   look : LookCfg
   pctAdvance : Nat
+  scanConv : List Nat
+  printConv : List Nat
 
 /-- the text one item produces -/
 def Item.text (c : Cfg) : Item → List Nat
@@ -454,6 +456,8 @@ def srcCfg : Cfg where
   look := { opn := CelloGen.Text.lookOpen, cls := CelloGen.Text.lookClose, escb := CelloGen.Text.lookEscape,
             esc := CelloGen.Text.lookEsc, continues := CelloGen.Text.lookContinues }
   pctAdvance := CelloGen.Text.scanPctAdvance
+  scanConv := CelloGen.Text.scanConv
+  printConv := CelloGen.Text.printConv
 
 /-! ## The contract of the round trip (what the property quantifies over), as an executable predicate -/
 
@@ -523,5 +527,92 @@ def Item.val? : Item → Option Val
   | .lf b => some (.flt b)
   | .lit _ => none
   | .pct => none
+
+/-! ## The format string: how `print_to_with` / `scan_from_with` cut it into the segments above -/
+
+/-- one piece of a format string as the scanners cut it -/
+inductive Seg where
+  | lit (t : List Nat)      -- a run without `%`
+  | pct                     -- `%%`
+  | spec (t : List Nat)     -- `%` … conversion character (inclusive)
+  | open_ (t : List Nat)    -- `%` … end of the string with no conversion character (the C code reads past the terminator here)
+deriving Repr, DecidableEq, Inhabited
+
+/-- bytes up to the first one satisfying `p` -/
+def spanUntil (p : Nat → Bool) : List Nat → List Nat × List Nat
+  | [] => ([], [])
+  | b :: r => if p b then ([], b :: r) else let (a, r') := spanUntil p r; (b :: a, r')
+
+/-- the `while (true)` loop over the format: literal run up to `%`; `%%`; otherwise everything up to and including the first
+    character of the conversion set `conv`.  `fuel` bounds the iterations (each consumes at least one byte). -/
+def segmentF (conv : List Nat) : Nat → List Nat → List Seg
+  | 0, _ => []
+  | _, [] => []
+  | fuel + 1, c :: r =>
+    if c ≠ 37 then
+      let lr := spanUntil (· == 37) (c :: r)
+      .lit lr.1 :: segmentF conv fuel lr.2
+    else match r with
+      | 37 :: r' => .pct :: segmentF conv fuel r'
+      | _ =>
+        let sr := spanUntil (fun b => conv.contains b) r
+        match sr.2 with
+        | cv :: r'' => .spec (37 :: sr.1 ++ [cv]) :: segmentF conv fuel r''
+        | [] => [.open_ (37 :: sr.1)]
+
+def segment (conv : List Nat) (fmt : List Nat) : List Seg := segmentF conv (fmt.length + 1) fmt
+
+/-- the format text of an item -/
+def Item.fmt : Item → List Nat
+  | .shw _ => [37, 36]          -- "%$"
+  | .li _ => [37, 108, 105]     -- "%li"
+  | .ld _ => [37, 108, 100]     -- "%ld"
+  | .lf _ => [37, 108, 102]     -- "%lf"
+  | .lit t => t
+  | .pct => [37, 37]
+
+def Item.seg : Item → Seg
+  | .lit t => .lit t
+  | .pct => .pct
+  | it => .spec it.fmt
+
+/-- the item a specification makes of its argument: `%$` takes any value (`show_to`), `%li`/`%ld` an Int (`c_int`), `%lf` a Float
+    (`c_float`); every other specification is outside this model -/
+def specItem (spec : List Nat) (v : Val) : Option Item :=
+  if spec = [37, 36] then some (.shw v)
+  else match v with
+    | .int n => if spec = [37, 108, 105] then some (.li n) else if spec = [37, 108, 100] then some (.ld n) else none
+    | .flt b => if spec = [37, 108, 102] then some (.lf b) else none
+    | .str _ => none
+
+/-- segments + argument values → items (`none`: too few arguments — FormatError in C —, an open `%`, or an unmodelled specification) -/
+def itemsOf : List Seg → List Val → Option (List Item)
+  | [], _ => some []
+  | .lit t :: ss, vs => (itemsOf ss vs).map (.lit t :: ·)
+  | .pct :: ss, vs => (itemsOf ss vs).map (.pct :: ·)
+  | .spec t :: ss, v :: vs =>
+    match specItem t v, itemsOf ss vs with
+    | some it, some its => some (it :: its)
+    | _, _ => none
+  | .spec _ :: _, [] => none
+  | .open_ _ :: _, _ => none
+
+/-- `print_to_with(out, pos, fmt, args)` on the raw format string -/
+def printFmt (c : Cfg) (o : Sink) (pos : Nat) (fmt : List Nat) (args : List Val) : Option (Sink × Nat) :=
+  (itemsOf (segment c.printConv fmt) args).map (printItems c o pos)
+
+/-- `scan_from_with(input, pos, fmt, args)` on the raw format string; the arguments' current values select the reader of `%$` -/
+def scanFmt (c : Cfg) (i : Input) (pos : Nat) (fmt : List Nat) (args : List Val) : Option (List Val × Res (Input × Nat)) :=
+  (itemsOf (segment c.scanConv fmt) args).map (fun its => scanItems c i pos (its.map Item.shape))
+
+/-- what the format layer needs: literals are non-empty, contain no `%`, and no two are adjacent (they would be one run) -/
+def fmtOK : List Item → Bool
+  | [] => true
+  | .lit t :: its => !t.isEmpty && t.all (· != 37) && (match its with | .lit _ :: _ => false | _ => true) && fmtOK its
+  | _ :: its => fmtOK its
+
+/-- what the format layer needs of a conversion set: it ends `%$`, `%li`, `%ld`, `%lf` where they end, not earlier -/
+def convOK (conv : List Nat) : Bool :=
+  conv.contains 36 && conv.contains 105 && conv.contains 100 && conv.contains 102 && !conv.contains 108 && !conv.contains 37
 
 end Cello.Text
